@@ -47,7 +47,7 @@ impl Check for MerkleVote {
         if tier == Tier::Quick {
             3000
         } else {
-            60000
+            30000
         }
     }
     fn components(&self) -> serde_json::Value {
